@@ -3,6 +3,8 @@
    behaviour executed on the real grpc.Server (two real ClientConns over bufconn in a synctest
    bubble).  Line formats:
      {"ev":"reset"}
+     {"ev":"final","h":..}  observation after the driver released every handler and cancelled every RPC
+     {"ev":"stuck"}   the server could not be stopped after the behaviour (the driver process gives up)
      {"ev":"step","a":"start"|"cancel"|"finish"|"gstop"|"hstop"|"fstop"|"gfinish","c":c,"r":r,"k":code,
       "h":[[..]],   handler state per connection / RPC: "none" | "running" | "returned"
       "cx":[[..]],  the handler saw ctx.Done() while running
@@ -49,12 +51,20 @@ Inputs(e) ==
                             started[c][r] = "early" /\ ~cancelledIn[c][r] /\ finOk[c][r] = NoCode]]
                      ELSE openAtStop
 
+Starved(e, st, sp) == ~sp /\ \E c \in Conns, r \in Rpcs :
+             /\ st[c][r] = "early" /\ e.h[c][r] = "none"
+             /\ Cardinality({q \in Rpcs : e.h[c][q] = "running"}) < Limit
+
 Clauses(e) ==
   /\ Mark(\E c \in Conns : e.maxrun[c] > Limit, "C25_Sem", l)
   /\ Mark(e.gs = "returned" /\ (e.gsrun > 0 \/ \E c \in Conns, r \in Rpcs : e.h[c][r] = "running"),
           "C25_GracefulWaits", l)
   /\ Mark(gsIn' /\ \E c \in Conns, r \in Rpcs : finOk'[c][r] # NoCode /\ e.cl[c][r] # finOk'[c][r],
           "C25_GracefulServes", l)
+  \* at quiescence an accepted RPC has its handler unless the connection's quota is used up; otherwise it
+  \* can never complete with the handler's status and no GracefulStop can return any more (lost wake-up
+  \* of the handler quota)
+  /\ Mark(Starved(e, started', stopIn'), "C25_AcceptedNeverServed", l)
   /\ Mark(\E c \in Conns, r \in Rpcs : started'[c][r] = "lategs" /\ (e.h[c][r] # "none" \/ e.cl[c][r] = OKc),
           "C25_NoAcceptAfter", l)
   /\ Mark(stopIn' /\ \E c \in Conns, r \in Rpcs : e.h[c][r] = "running" /\ ~e.cx[c][r],
@@ -73,5 +83,8 @@ ResetAll == /\ cl' = M0("idle") /\ clcode' = M0(NoCode) /\ sv' = M0("none") /\ c
 TNext == /\ l <= TLen /\ l' = l + 1 /\ Consumed(l)
          /\ CASE Ev.ev = "reset" -> ResetAll
               [] Ev.ev = "step"  -> Model(Ev) /\ Inputs(Ev) /\ Clauses(Ev)
+              [] Ev.ev = "final" -> /\ Mark(Starved(Ev, started, stopIn), "C25_AcceptedNeverServed", l)
+                                    /\ UNCHANGED vars /\ UNCHANGED <<started, cancelledIn, finOk, gsIn, stopIn, openAtStop>>
+              [] Ev.ev = "stuck" -> Drift(TRUE, "C25_DriverStuckInCleanup", l) /\ UNCHANGED vars /\ UNCHANGED <<started, cancelledIn, finOk, gsIn, stopIn, openAtStop>>
               [] Ev.ev = "panic" -> Mark(TRUE, "NoPanic", l) /\ UNCHANGED vars /\ UNCHANGED <<started, cancelledIn, finOk, gsIn, stopIn, openAtStop>>
 ====
